@@ -41,6 +41,11 @@ INDEX_WRITERS = {
 }
 
 
+def show5(e):
+    from ..expr import show
+    return show(e)[:60]
+
+
 def reorg_calls(body):
     """{view: [(bb, direction const or None)]}"""
     out = {k: [] for k in REORG}
@@ -94,6 +99,7 @@ def run(prog, tier, extra=None):
     R1 = res.rule("C03.lockstep", "wind/unwind update blockring, UTXO set, wallet and blockchain exactly once each, same direction", floor=9)
     R2 = res.rule("C03.ledger-owner", "only the wind/unwind primitives (and two named exceptions) mutate a UtxoSet", floor=6)
     R4 = res.rule("C03.full-before-apply", "wind/unwind upgrade the block to a full block in the same step before applying its transactions", floor=2)
+    R5 = res.rule("C03.order", "wind proceeds oldest-first, unwind newest-first (index direction over the tip-first chain slices)", floor=2)
     R3 = res.rule("C03.index-owner", "only the table's bodies write the longest-chain index / in_longest_chain", floor=8)
 
     wind = prog.body(BC + "wind_chain::{closure#0}")
@@ -145,6 +151,55 @@ def run(prog, tier, extra=None):
                                 "a pruned block has no transactions, so nothing is (un)wound while index and flags move" % body.path.split("::")[-2], body.loc(bb)))
             else:
                 res.sample({"rule": R4, "body": body.path.split("::")[-2], "site": body.loc(bb), "verdict": "dominated by an upgrade to BlockType::Full in the same step"})
+
+    # R5: blocks are wound oldest first and unwound newest first. Both chain slices are ordered tip first, so wind_chain indexes
+    # new_chain[i] and continues with i - 1, unwind_chain indexes old_chain[i] and continues with i + 1 (an unwind in the other
+    # order re-creates outputs that a later block of the abandoned fork had spent)
+    from ..expr import Chaser as _Ch, strip as _strip, walk as _walk
+    for body, chain_param, idx_param, cont, step in ((wind, "new_chain", "current_wind_index", "Wind", "Sub"), (unwind, "old_chain", "current_unwind_index", "Unwind", "Add")):
+        ch5 = _Ch(body)
+        res.instance(R5)
+        name = body.path.split("::")[-2]
+
+        def is_param(e, pname):
+            x = _strip(e)
+            return x[0] == "field" and x[3] == pname and _strip(x[1])[0] == "param"
+        # (a) the block handled in this step is chain[index]
+        indexed = False
+        for bb, t in body.calls():
+            n = call_name(t) or ""
+            if n in ("std::ops::Index::index", "std::slice::get", "std::vec::Vec::get") and len(t["args"]) == 2:
+                a0, a1 = ch5.origin(t["args"][0]), ch5.origin(t["args"][1])
+                if is_param(a0, chain_param) and is_param(a1, idx_param):
+                    indexed = True
+        for blk in body.blocks:
+            for st in blk["s"]:
+                if st[0] == "=":
+                    for pl in ([st[2][1][1]] if st[2][0] == "use" and st[2][1][0] in ("cp", "mv") else []) + ([st[2][2]] if st[2][0] == "ref" else []):
+                        e = ch5.place(pl)
+                        for x in _walk(e):
+                            if x[0] == "index" and is_param(x[1], chain_param) and is_param(x[2], idx_param):
+                                indexed = True
+        # (b) the continuation of the same kind steps the index in the right direction
+        steps = []
+        for blk in body.blocks:
+            for st in blk["s"]:
+                if st[0] == "=" and st[2][0] == "agg" and st[2][1][0] == "adt" and st[2][1][1].endswith("WindingResult") and st[2][1][2] == cont:
+                    e0 = ch5.origin(st[2][2][0])
+                    x = _strip(e0)
+                    if x[0] == "field" and x[1][0] == "bin":
+                        x = x[1]
+                    if x[0] == "bin" and x[1].startswith(step) and is_param(x[2], idx_param) and x[3][0] == "const" and x[3][1] == 1:
+                        steps.append("ok")
+                    else:
+                        steps.append(show5(e0))
+        if not indexed:
+            res.add(Finding(R5, "C03.order|%s|element" % name, "%s does not take the block of this step as %s[%s]: the order in which blocks are %s is no longer tied to the step index"
+                            % (name, chain_param, idx_param, "wound" if cont == "Wind" else "unwound"), body.loc(0)))
+        elif "ok" not in steps:
+            res.add(Finding(R5, "C03.order|%s|step" % name, "%s does not continue with %s %s 1 (found %s)" % (name, idx_param, "-" if step == "Sub" else "+", steps[:3]), body.loc(0)))
+        else:
+            res.sample({"rule": R5, "body": name, "element": "%s[%s]" % (chain_param, idx_param), "continues_with": "%s %s 1" % (idx_param, "-" if step == "Sub" else "+")})
 
     # R2
     cg = CallGraph(prog, [u for u in prog.units if u.crate in ("saito_core", "saito_rust", "saito_spammer", "saito_wasm")])
